@@ -59,15 +59,17 @@ def cfgs_limit(tier, rng):
     out.append(cfgmod.make(n=3, head=0, manual=1, limit=3, cap=1, plans=1, payload=2, history=1, log="off", order=1))
     out.append(cfgmod.make(n=2, head=1, manual=0, limit=4, cap=2, plans=1, history=0, log="off", order=1))
     out.append(cfgmod.make(n=3, head=1, manual=1, limit=2, cap=2, plans=0, history=1, log="off", inj_state=2, inj_root=1))
-    out.append(cfgmod.make(n=2, head=0, manual=1, limit=255, plans=0, history=1, log="off"))        # the largest limit there is (the loop counter is 8 bits wide)
-    out.append(cfgmod.make(n=2, head=1, manual=0, limit=255, cap=2, plans=1, history=0, log="off", order=1))
     return out
+
+def cfgs_limit_extreme():
+    return [cfgmod.make(n=2, head=0, manual=1, limit=255, plans=0, history=1, log="off"),        # the largest limit there is (the loop counter is 8 bits wide)
+            cfgmod.make(n=2, head=1, manual=0, limit=255, cap=2, plans=1, history=0, log="off", order=1)]
 
 def ping_pong(tier):
     """two states whose guards bounce every request to each other for ever: every activation, immediate change, update() and react() must still come
     back after exactly the configured number of rounds - for the smallest and the largest limits too"""
     out = []
-    for c in cfgs_limit(tier, random.Random(0)):
+    for c in cfgs_limit(tier, random.Random(0)) + cfgs_limit_extreme():       # (the limit-255 machines run these scripts only)
         if c["n"] < 2 or c["inj_state"]: continue
         for cancel in (False, True):
             lines = [cfgmod.cfg_line(c), "tab * S0 own entryGuard  : %schange 1" % ("cancel ; " if cancel else ""), "tab * S1 own entryGuard  : %schange 0" % ("cancel ; " if cancel else ""),
